@@ -54,6 +54,7 @@ func vfMixes(checkC07, checkC08 bool) {
 			issueAct = nact
 			nact++
 		}
+		pend = vfAnswerable(pend, next < len(kinds) || eventsLeft > 0, next < len(kinds))
 		firstAnswer := nact
 		nact += len(pend)
 		if eventsLeft > 0 && w.mq.activeSub("event.test.model") != nil {
